@@ -399,6 +399,53 @@ def dispatch_sweep(res: Result, counter: list[int]) -> int:
     return n
 
 
+def structural(res: Result, counter: list[int]) -> dict[int, str]:
+    import os
+
+    from aioesphomeapi import api_options_pb2
+
+    ids = table_check(res, counter)
+    compare_file(res, "api", env.proto(), env.pb(), api_options_pb2, counter)
+    opf = protoparse.parse_file(os.path.join(env.REPO, "aioesphomeapi", "api_options.proto"))
+    compare_file(res, "api_options", opf, api_options_pb2, None, counter)
+    ext = {f.name: f.number for f in opf.extends.get("google.protobuf.MessageOptions", [])}
+    for nm in ("id", "source"):
+        counter[0] += 1
+        if getattr(api_options_pb2, nm).number != ext.get(nm):
+            res.add(f"api_options:ext:{nm}", f"extension {nm}: text {ext.get(nm)} != descriptors {getattr(api_options_pb2, nm).number}")
+    return ids
+
+
+def other_backend(res: Result, counter: list[int]) -> str:
+    """The generated module builds its descriptors differently under the pure-Python protobuf runtime: repeat the structural comparison
+    in a child interpreter that runs on that backend."""
+    import json
+    import os
+    import subprocess
+    import sys
+
+    code = ("import json,sys\n"
+            "from mc import env\nenv.load()\n"
+            "from google.protobuf.internal import api_implementation as ai\n"
+            "from mc.evidence import Result\nfrom mc.props import c13\n"
+            "r=Result('C13','exploration'); c=[0]; c13.structural(r,c)\n"
+            "print('C13CHILD'+json.dumps({'backend':ai.Type(),'n':c[0],'viol':[[v.key,v.clause] for v in r.violations]}))\n")
+    e = dict(os.environ)
+    e["PROTOCOL_BUFFERS_PYTHON_IMPLEMENTATION"] = "python"
+    e["PYTHONPATH"] = env.VERIF + os.pathsep + e.get("PYTHONPATH", "")
+    p = subprocess.run([sys.executable, "-B", "-c", code], env=e, capture_output=True, text=True, cwd=env.VERIF, check=False)
+    line = next((ln for ln in p.stdout.splitlines() if ln.startswith("C13CHILD")), None)
+    if line is None:
+        raise HarnessError(f"child interpreter on the pure-Python protobuf backend failed: {p.stderr[-400:]}")
+    out = json.loads(line[8:])
+    if out["backend"] != "python":
+        return f"not available (child ran on {out['backend']})"
+    counter[0] += out["n"]
+    for k, clause in out["viol"]:
+        res.add("python-backend:" + k, "under the pure-Python protobuf runtime: " + clause)
+    return "python"
+
+
 def run(tier: str, seed: int) -> Result:
     env.load()
     import os
@@ -417,9 +464,11 @@ def run(tier: str, seed: int) -> Result:
         counter[0] += 1
         if getattr(api_options_pb2, nm).number != ext.get(nm):
             res.add(f"api_options:ext:{nm}", f"extension {nm}: text {ext.get(nm)} != descriptors {getattr(api_options_pb2, nm).number}")
+    backend = other_backend(res, counter)
     dispatched = dispatch_sweep(res, counter)
     sweep = direction_sweep(res, counter)
     sweep["frames_dispatched_by_id"] = dispatched
+    sweep["structural_comparison_repeated_on_backend"] = backend
     if not res.violations and (len(ids) < 100 or sweep["api_calls"] < 150 or len(sweep["types_sent"]) < 40):
         raise HarnessError(f"vacuous: ids={len(ids)} sweep={sweep['api_calls']} sent={len(sweep['types_sent'])}")
     res.coverage = {
